@@ -88,7 +88,7 @@ func runC09(c *eng.Ctx) {
 		}
 		// a flush that completed between lookup and lock moved entries to the persisted store
 		var cmp *ssa.If
-		for _, b := range f.Blocks {
+		for _, b := range eng.BlocksT(f) {
 			if len(b.Instrs) == 0 {
 				continue
 			}
@@ -278,7 +278,7 @@ func runC09(c *eng.Ctx) {
 		// a flush completed since the lookup -> re-read the persisted schema when memory misses
 		kv := p.Sites(f, eng.CallTo(mssT+".getSchemaFromKV"))
 		var cmp bool
-		for _, b := range f.Blocks {
+		for _, b := range eng.BlocksT(f) {
 			for _, in := range b.Instrs {
 				if bo, ok := in.(*ssa.BinOp); ok && (bo.Op == token.NEQ || bo.Op == token.EQL) {
 					dx, dy := p.Desc(bo.X), p.Desc(bo.Y)
